@@ -7,7 +7,8 @@ CHECKS = {
     'C01': ('exploration', '§4 C01',
             'Seeded simulation of the compiled shell (real generated code, simulated dispatcher/threads): every call on an outer or inner port '
             'must pair one-to-one with a handler execution on the same (port,event) with equal unique argument tokens, reply and out/inout tokens, '
-            'under stalls and several clients/peers; sampled over generated models, configurations and schedules - evidence, not proof.',
+            'under stalls and several clients/peers, with ConnectPorts-tied user ports, ports re-fetched through the accessor, handlers replaced at run time, '
+            'a sibling shell instance in the process, calls before FinalConstruct; sampled over generated models, configurations and schedules - evidence, not proof.',
             'seeded schedule search over the compiled shell on a baton-scheduled simulated dispatcher; history oracle = call/handler bijection on unique tokens'),
     'C02': ('exploration', '§4 C02',
             'Same simulated worlds judged for runtime semantics: MTS handlers run on the shell\'s dispatcher task, provides-in blocks until handled, '
@@ -16,25 +17,28 @@ CHECKS = {
             'seeded schedule search with argument-lifetime fault (caller frame destroyed before the dispatcher runs) under ASan; dispatcher-context monitor'),
     'C04': ('exploration', '§4 C04',
             'Sequential claim/release/other/peer histories for 1-4 clients against an executable reference model of "who holds the claim" '
-            '(both readings of the statement accepted), fault-free and faulty (release by non-holder, denied claims) histories reported separately.',
+            '(both readings of the statement accepted), fault-free and faulty (release by non-holder, denied claims) histories reported separately; arbitrary '
+            'identifier strings, first calls before FinalConstruct, handlers replaced while the port is quiet, out-event handlers that call back into the shell, '
+            'a sibling instance holding a claim of its own.',
             'seeded operation-and-fault histories on the compiled shell checked against a reference holder model'),
     'C08': ('exploration', '§4 C08',
             'The simulator owns PYTHONHASHSEED, set construction order and process identity: every case is built in child interpreters under all of them '
-            'and outputs (names, contents, content hash = MD5) must be identical; a reach probe counts cases whose set iteration order really differed.',
+            '(working directory, files and symbolic links at the configured model file name, locale, HOME, TZ vary with the process) and outputs (names, contents, '
+            'content hash = MD5) must be identical; a reach probe counts cases whose set iteration order really differed.',
             'simulator-controlled nondeterminism sources (hash seed x set insertion order x process) over child interpreters; byte-identity oracle'),
     'C09': ('fault_enumeration', '§4 C09',
-            'Exhaustive product {pump present?}x{runtime present?}x{0,1,2 services} of the user locator per model and origin (constructor must throw exactly '
+            'Exhaustive product {pump present?}x{runtime present?}x{0,1,2 services}x{component looks the runtime up itself or not} of the user locator per model and origin (constructor must throw exactly '
             'on the stated faults), identities of dispatcher/runtime/locator contents seen by the mock component, and the executing dispatcher checked on every '
             'closure of seeded workloads.',
             'exhaustive construction-fault enumeration per model plus seeded workloads with dispatcher-identity monitor'),
     'C10': ('fault_enumeration', '§4 C10',
             'Exhaustive single-fault enumeration per model: the all-bound world and one world per event (every exposed port, every registered client of a '
             'multi-client port, the component\'s own and injected ports) left unbound; FinalConstruct must throw a binding error iff something is unbound; '
-            'registration is closed afterwards.',
+            'registration is closed afterwards (a refused registration leaves nothing behind); worlds in which the user\'s log sink re-enters the shell and registers a client of its own.',
             'exhaustive single-binding-fault enumeration on the compiled shell'),
     'C11': ('exploration', '§4 C11',
             'ThreadSanitizer build in which the baton is invisible, so only the program\'s own synchronisation orders accesses: 2-3 client threads in '
-            'claim/use/release cycles, peers and the dispatcher under seeded schedules (uniform, sticky, PCT, round-robin, stalls, slow log sink, rogue releases); '
+            'claim/use/release cycles, peers and the dispatcher under seeded schedules (uniform, sticky, PCT, round-robin, stalls, slow log sink, rogue releases, timed locks that run into their deadline, re-entrant handlers); '
             'no race report, no deadlock, bounded progress, window oracle for the claim holder; MutexWrapped exercised alone with an occupancy monitor.',
             'seeded interleaving search over baton-scheduled real threads under TSan; window oracle + kernel-side mutual-exclusion monitor'),
     'C12': ('exploration', '§4 C12',
